@@ -829,6 +829,8 @@ class Context(MetadataContextMixin, object):
             state.log_exception(
                 f"Failed getting metadata for key '{key}'",
                 traceback=traceback.format_exc(),
+                position=resource_query.position,
+                query=self.raw_query,
             )
             self.warning(
                 f"Failed getting metadata for key '{key}'",
@@ -839,11 +841,17 @@ class Context(MetadataContextMixin, object):
         try:
             if metadata is None:
                 if store.contains(key):
-                    state.error(
-                        f"Key '{key}' was found in store, but the metadata is missing."
+                    state.log_error(
+                        f"Key '{key}' was found in store, but the metadata is missing.",
+                        position=resource_query.position,
+                        query=self.raw_query,
                     )
                 else:
-                    state.error(f"Metadata for key '{key}' not found in store")
+                    state.log_error(
+                        f"Metadata for key '{key}' not found in store",
+                        position=resource_query.position,
+                        query=self.raw_query,
+                    )
 
             if (
                 resource_query.header is not None
@@ -862,29 +870,46 @@ class Context(MetadataContextMixin, object):
                 if data is None:
                     if store.contains(key):
                         if store.is_dir(key):
-                            state.error(
-                                f"Key '{key}' is a directory, hence there is no data."
+                            state.log_error(
+                                f"Key '{key}' is a directory, hence there is no data.",
+                                position=resource_query.position,
+                                query=self.raw_query,
                             )
                         else:
-                            state.error(
-                                f"Key '{key}' was found in store, but the data is missing."
+                            state.log_error(
+                                f"Key '{key}' was found in store, but the data is missing.",
+                                position=resource_query.position,
+                                query=self.raw_query,
                             )
                     else:
-                        state.error(f"Key '{key}' not found in store")
+                        state.log_error(
+                            f"Key '{key}' not found in store",
+                            position=resource_query.position,
+                            query=self.raw_query,
+                        )
 
             state = state.with_data(data)
             state.metadata["resource_metadata"] = metadata
         except:
             if "log" not in state.metadata:
                 state.metadata["log"] = []
+            if "child_log" not in state.metadata:
+                state.metadata["child_log"] = []
             for x in metadata.get("log", []):
                 self.log_dict(deepcopy(x))
                 state.metadata["log"].append(deepcopy(x))
+                state.metadata["child_log"].append(deepcopy(x))
             self.exception(
                 message=f"Error evaluating resource {resource_query}",
                 traceback=traceback.format_exc(),
                 position=resource_query.position,
                 query=resource_query.encode(),
+            )
+            state.log_exception(
+                f"Error evaluating resource {resource_query}",
+                traceback=traceback.format_exc(),
+                position=resource_query.position,
+                query=self.raw_query,
             )
             traceback.print_exc()
         return state
